@@ -3,7 +3,7 @@
 import json, subprocess
 
 claimed = {
- "C01": ("exploration", "fs-history", "7.1", "Seeded simulated histories (interleaved open/seek/read/write/flush/close over up to MAX_FILES files and up to 3 volumes, three API flavours incl. embedded-io) run against the real library on a simulated block device in lock-step with a byte-array reference model; every read, length, offset, EOF and seek result is compared. Sampling of histories and geometries, not enumeration."),
+ "C01": ("exploration", "fs-history", "7.1", "Seeded simulated histories (interleaved open/seek/read/write/flush/close over up to MAX_FILES files and up to 3 volumes, three API flavours incl. embedded-io) run against the real library on a simulated block device in lock-step with a byte-array reference model; every read, length, offset, EOF and seek result is compared; one case in 64 is a huge-file history (2 GiB .. 4 GiB-1 file, offsets across 2^31 and the size limit; model = formatted medium + overlay of written blocks). Sampling of histories and geometries, not enumeration."),
  "C02": ("exploration", "fs-history", "7.2", "Seeded histories with a moving simulated clock; at quiescent points and at the end the raw medium is read by an independent FAT reader and by a fresh mount of the library and compared with the model (names, kinds, sizes, contents, ctime, mtime, untouched entries/chains byte for byte)."),
  "C03": ("exploration", "fs-history", "7.3", "Independent fsck over the raw medium after every API call that wrote (success or error), including the pending chains/sizes of open files; workload biased to volumes with 0..64 free clusters and small FAT16 roots."),
  "C04": ("exploration", "fs-history", "7.4", "Monitor on every BlockDevice::write with its pre-image: region classification from the independent geometry, byte diff confined to the call's file range / newly allocated clusters / owned directory slot / FAT entries of its chains; refused and read-only calls must not change a byte."),
@@ -64,6 +64,7 @@ m = {
  },
  "engines": [
    {"name": "fs-history", "path": "/verif/sim", "serves_properties": ["C01","C02","C03","C04","C05","C06","C07","C08","C16"], "kind_free_text": "seeded deterministic simulation of API histories on SimDisk/SimClock with reference model, independent reader and write-log monitors"},
+   {"name": "fs-huge", "path": "/verif/sim", "serves_properties": ["C01"], "kind_free_text": "seeded histories on one 2 GiB .. 4 GiB-1 file (sparse medium + overlay model), part of the C01 batch"},
    {"name": "fs-crash", "path": "/verif/sim", "serves_properties": ["C09","C10"], "kind_free_text": "write-log prefix (power-cut) enumeration over simulated histories"},
    {"name": "fs-fault", "path": "/verif/sim", "serves_properties": ["C11"], "kind_free_text": "per-device-call fault enumeration over simulated histories"},
    {"name": "dir-media", "path": "/verif/sim", "serves_properties": ["C06","C17"], "kind_free_text": "generated / corrupted directory media read through the block-device seam"},
